@@ -3,6 +3,7 @@ package main
 import (
 	"fmt"
 	"go/token"
+	"go/types"
 
 	"golang.org/x/tools/go/ssa"
 )
@@ -57,25 +58,49 @@ func runC28(c *Ctx) {
 		"RemoteIndexes": {"(*nebula.HostMap).unlockedAddHostInfo": true, "(*nebula.HostMap).unlockedDeleteHostInfo": true, "nebula.newHostMap": true},
 		"Relays":        {"(*nebula.relayManager).AddRelay": true, "nebula.AddRelay": true, "(*nebula.HostMap).unlockedDeleteHostInfo": true, "nebula.newHostMap": true},
 	}
+	cg := fix4BuildCallGraph(funcs)
+	innerRef := Ref{"", "HostMap", "unlockedInnerAddHostInfo"}
+	inner := c.funcQuiet(innerRef)
+	if inner == nil {
+		// unlockedInnerAddHostInfo's only tabled caller is unlockedAddHostInfo (C09.addhost): when the function is gone its body
+		// can only have moved there (or into a private helper of it), and the C28.add rules below are then decided on that body.
+		tables["Hosts"]["(*nebula.HostMap).unlockedAddHostInfo"] = true
+		c.Note("C28: unlockedInnerAddHostInfo is absent; the per-address insertion rules are anchored on unlockedAddHostInfo and its private helpers")
+	}
 	for fname, allow := range tables {
 		f := c.Field("", "HostMap", fname)
 		if f == nil {
 			continue
 		}
-		bad := 0
+		// a private helper (unexported, same package, never a function value) whose every caller is a tabled writer of this
+		// very map - or such a helper again - is a part of the tabled function
+		var roots []*ssa.Function
+		for _, fn := range funcs {
+			if fn.Parent() == nil && allow[fnName(fn)] {
+				roots = append(roots, fn)
+			}
+		}
+		fam := fix4Family(c, funcs, cg, roots...)
+		bad, viaHelper := 0, 0
 		ws := fieldWriters(funcs, f)
 		for _, w := range ws {
 			if c.isTestHelperFile(w.Instr) || w.Kind == "addr-escape" {
 				continue
 			}
 			n := fnName(topFunc(w.Fn))
-			if !allow[n] {
-				bad++
-				c.Bad("C28.writers", "HostMap."+fname+"<-"+n, c.instrPos(w.Instr), fmt.Sprintf("%s outside the functions that keep the hostmap indexes consistent", w.Kind))
+			if allow[n] {
+				continue
 			}
+			if fam[topFunc(w.Fn)] {
+				viaHelper++
+				c.Note("C28.writers: HostMap.%s is written by %s, a private helper called only from tabled writers of that map", fname, n)
+				continue
+			}
+			bad++
+			c.Bad("C28.writers", "HostMap."+fname+"<-"+n, c.instrPos(w.Instr), fmt.Sprintf("%s outside the functions that keep the hostmap indexes consistent", w.Kind))
 		}
 		if bad == 0 {
-			c.OK("C28.writers", "HostMap."+fname, fmt.Sprintf("%d write sites, all tabled", len(ws)))
+			c.OK("C28.writers", "HostMap."+fname, fmt.Sprintf("%d write sites, all tabled (%d in private helpers of tabled writers)", len(ws), viaHelper))
 		}
 	}
 	hostMapDiscipline("C28.locks").run(c)
@@ -93,32 +118,20 @@ func runC28(c *Ctx) {
 		c.requireGuards("C28.promote", fn, sinks, "list-mutation", g)
 	}
 	// ---- add
-	if fn := c.Func(Ref{"", "HostMap", "unlockedInnerAddHostInfo"}); fn != nil {
-		hi := fn.Params[2]
-		removed := func(v ssa.Value) bool {
-			call, _ := callOf(v)
-			return call != nil && matchFunc(calleeObj(call), Ref{"", "", "removeHostInfo"}) && call.Call.Args[1] == hi
-		}
-		// the prepend: append([]*HostInfo{hostinfo}, list...)
-		n := 0
-		eachInstr(fn, func(in ssa.Instruction) {
-			call, ok := in.(*ssa.Call)
-			if !ok || builtinName(call) != "append" {
-				return
-			}
-			n++
-			tail := call.Call.Args[1]
-			okAll, why := allEdges(tail, removed)
-			c.Check(okAll, "C28.add", "prepend-list-has-no-copy", c.instrPos(call), "the old list had the new tunnel removed on every path", "the list the new tunnel is prepended to may still contain it ("+why+"): re-adding a tunnel duplicates it in its address list")
-		})
-		if n == 0 {
-			c.Bad("C28.add", "prepend-list-has-no-copy", c.P.Pos(fn.Pos()), "prepend not found")
-		}
+	// anchored on the construct: the prepend, the retire call and the cap test are looked for in unlockedInnerAddHostInfo and
+	// its private helpers, or - when that function was inlined away - in unlockedAddHostInfo and its private helpers
+	addRoot := inner
+	if addRoot != nil {
+		c.Funcs[addRoot.String()] = true
+	} else {
+		addRoot = c.Func(Ref{"", "HostMap", "unlockedAddHostInfo"})
+	}
+	if addRoot != nil {
+		addFam := fix4FamilyList(funcs, fix4ReachFamily(fix4Family(c, funcs, cg, addRoot), addRoot))
 		maxC := int64(5)
 		if v := c.ConstVal("", "MaxHostInfosPerVpnIp"); v != nil {
 			maxC, _ = constantInt64(v)
 		}
-		dels := callSinks(fn, "retire tail", callTo(Ref{"", "HostMap", "unlockedDeleteHostInfo"}))
 		capTest := gCmp("len(list) > MaxHostInfosPerVpnIp", isLenOf(anyValue), func(v ssa.Value) bool { k, ok := constInt(v); return ok && k == maxC }, func(op token.Token) (bool, bool) {
 			switch op {
 			case token.GTR:
@@ -128,13 +141,83 @@ func runC28(c *Ctx) {
 			}
 			return false, false
 		})
-		c.requireGuards("C28.add", fn, dels, "retire-tail", capTest)
-		// and conversely the cap test dominates every return after the list was stored
-		sets := callsIn(fn, Ref{"", "HostMap", "unlockedSetHostsForAddr"})
-		if len(sets) == 1 {
+		hiType := c.NamedType("", "HostInfo")
+		isHostInfoSlice := func(t types.Type) bool {
+			sl, ok := t.Underlying().(*types.Slice)
+			if !ok || hiType == nil {
+				return false
+			}
+			pt, ok := sl.Elem().(*types.Pointer)
+			return ok && types.Identical(pt.Elem(), hiType)
+		}
+		nPrepend, nDels, nSets, nTests := 0, 0, 0, 0
+		var firstSet ssa.Instruction
+		for _, fn := range addFam {
+			// the prepend: append([]*HostInfo{hostinfo}, list...)
+			eachInstr(fn, func(in ssa.Instruction) {
+				call, ok := in.(*ssa.Call)
+				if !ok || builtinName(call) != "append" || len(call.Call.Args) != 2 {
+					return
+				}
+				if fn != inner && !isHostInfoSlice(call.Type()) {
+					return
+				}
+				nPrepend++
+				// the tunnel(s) put in front: the elements of the literal; in unlockedInnerAddHostInfo also its hostinfo parameter
+				elems := fix4PrependElems(call)
+				if fn == inner {
+					elems = append(elems, fn.Params[2])
+				}
+				if len(elems) == 0 {
+					c.Unknown("C28.add", "prepend-list-has-no-copy", "the element prepended at "+c.instrPos(call)+" is not a slice literal: unrecognised shape")
+					return
+				}
+				removed := func(v ssa.Value) bool {
+					rc, _ := callOf(v)
+					if rc == nil || !matchFunc(calleeObj(rc), Ref{"", "", "removeHostInfo"}) {
+						return false
+					}
+					for _, e := range elems {
+						if rc.Call.Args[1] == e {
+							return true
+						}
+					}
+					return false
+				}
+				tail := call.Call.Args[1]
+				okAll, culprit := fix4AllEdges(tail, removed)
+				if _, isParam := culprit.(*ssa.Parameter); !okAll && isParam && fn != addRoot {
+					c.Unknown("C28.add", "prepend-list-has-no-copy", "the list prepended to at "+c.instrPos(call)+" is a parameter of the private helper "+fnName(fn)+": what the callers removed from it is not followed")
+					return
+				}
+				why := ""
+				if culprit != nil {
+					why = "edge value " + exprString(culprit)
+				}
+				c.Check(okAll, "C28.add", "prepend-list-has-no-copy", c.instrPos(call), "the old list had the new tunnel removed on every path", "the list the new tunnel is prepended to may still contain it ("+why+"): re-adding a tunnel duplicates it in its address list")
+			})
+			if dels := callSinks(fn, "retire tail", callTo(Ref{"", "HostMap", "unlockedDeleteHostInfo"})); len(dels) > 0 {
+				nDels += len(dels)
+				c.requireGuards("C28.add", fn, dels, "retire-tail", capTest)
+			}
+			// and conversely the cap test is there once the list was stored
+			if sets := callsIn(fn, Ref{"", "HostMap", "unlockedSetHostsForAddr"}); len(sets) > 0 {
+				nSets += len(sets)
+				if firstSet == nil {
+					firstSet = sets[0]
+				}
+			}
 			tests, _ := splitEdges(fn, capTest)
-			okDom := len(tests) > 0
-			c.Check(okDom, "C28.add", "cap-test-present", c.instrPos(sets[0]), "growth is followed by the cap test", "the per-address cap is no longer enforced after growing the list")
+			nTests += len(tests)
+		}
+		if nPrepend == 0 {
+			c.Bad("C28.add", "prepend-list-has-no-copy", c.P.Pos(addRoot.Pos()), "prepend not found")
+		}
+		if nDels == 0 {
+			c.requireGuards("C28.add", addRoot, nil, "retire-tail", capTest)
+		}
+		if nSets == 1 {
+			c.Check(nTests > 0, "C28.add", "cap-test-present", c.instrPos(firstSet), "growth is followed by the cap test", "the per-address cap is no longer enforced after growing the list")
 		}
 	}
 	if fn := c.Func(Ref{"", "HostMap", "unlockedSetHostsForAddr"}); fn != nil {
@@ -162,7 +245,7 @@ func runC28(c *Ctx) {
 	}
 	// ---- delete
 	if fn := c.Func(Ref{"", "HostMap", "unlockedDeleteHostInfo"}); fn != nil {
-		hi := fn.Params[1]
+		hi := ssa.Value(fn.Params[1])
 		fRI := c.Field("", "HostMap", "RemoteIndexes")
 		fRel := c.Field("", "HostMap", "Relays")
 		isDelOf := func(f *typesVar) func(ssa.Instruction) bool {
@@ -171,77 +254,143 @@ func runC28(c *Ctx) {
 				return ok && builtinName(ci) == "delete" && loadsField(ci.Common().Args[0], f)
 			}
 		}
-		rets := []*ssa.Return{}
-		for _, b := range fn.Blocks {
-			if r, ok := b.Instrs[len(b.Instrs)-1].(*ssa.Return); ok {
-				rets = append(rets, r)
-			}
+		delFam := fix4Family(c, funcs, cg, fn)
+		reach := fix4FamilyList(funcs, fix4ReachFamily(delFam, fn))
+		notOwnerEdges := func(f *ssa.Function, h ssa.Value) map[Edge]bool {
+			// the Indexes delete may be skipped only through the "this tunnel no longer owns the index" side of an ownership test
+			// (Indexes[id] == hostinfo), the same idiom the RemoteIndexes delete uses
+			e, _ := passEdges(f, gCmp("Indexes[id] != hostinfo", func(v ssa.Value) bool {
+				return derivesFrom(v, sliceLocal, func(x ssa.Value) bool { lk, ok := x.(*ssa.Lookup); return ok && loadsField(lk.X, fIdx) })
+			}, func(v ssa.Value) bool { return h != nil && v == h }, mustDiffer))
+			return e
 		}
-		must := []struct {
-			name string
-			cut  func(ssa.Instruction) bool
-		}{
-			{"Indexes-delete", isDelOf(fIdx)},
-			{"relay-index-cleanup (CopyRelayForIdxs)", func(in ssa.Instruction) bool {
+		fVpn := c.Field("", "HostInfo", "vpnAddrs")
+		plain := func(p func(ssa.Instruction) bool) func(*ssa.Function, ssa.Value) func(ssa.Instruction) bool {
+			return func(*ssa.Function, ssa.Value) func(ssa.Instruction) bool { return p }
+		}
+		must := []fix4Cut{
+			{Name: "Indexes-delete", Direct: plain(isDelOf(fIdx)), Skip: notOwnerEdges},
+			{Name: "relay-index-cleanup (CopyRelayForIdxs)", Direct: plain(func(in ssa.Instruction) bool {
 				ci, ok := in.(ssa.CallInstruction)
 				return ok && matchFunc(calleeObj(ci), Ref{"", "RelayState", "CopyRelayForIdxs"})
-			}},
-			{"RemoteIndexes-lookup", func(in ssa.Instruction) bool {
+			})},
+			{Name: "RemoteIndexes-lookup", Direct: plain(func(in ssa.Instruction) bool {
 				lk, ok := in.(*ssa.Lookup)
 				return ok && loadsField(lk.X, fRI)
+			})},
+			// per-address loop over hostinfo.vpnAddrs is entered on every path
+			{Name: "per-address-loop", Direct: func(f *ssa.Function, h ssa.Value) func(ssa.Instruction) bool {
+				var hdr *ssa.BasicBlock
+				if h != nil {
+					if loops := fix4VpnLoops(f, h, fVpn); len(loops) == 1 {
+						hdr = loops[0].Header
+					}
+				}
+				return func(in ssa.Instruction) bool { return hdr != nil && in.Block() == hdr }
 			}},
 		}
-		// the Indexes delete may be skipped only through the "this tunnel no longer owns the index" side of an ownership test
-		// (Indexes[id] == hostinfo), the same idiom the RemoteIndexes delete uses
-		notOwner, _ := passEdges(fn, gCmp("Indexes[id] != hostinfo", func(v ssa.Value) bool {
-			return derivesFrom(v, sliceLocal, func(x ssa.Value) bool { lk, ok := x.(*ssa.Lookup); return ok && loadsField(lk.X, fIdx) })
-		}, func(v ssa.Value) bool { return v == hi }, mustDiffer))
-		for _, m := range must {
-			bad := false
-			for _, r := range rets {
-				var av bool
-				var path []string
-				if m.name == "Indexes-delete" && len(notOwner) > 0 {
-					av, path = c.avoidsCutEdges(fn, fn.Blocks[0].Instrs[0], r, m.cut, notOwner)
-				} else {
-					av, path = c.avoidsCut(fn, nil, r, m.cut)
+		// looseLoop: a private helper reached from unlockedDeleteHostInfo ranges over a slice of addresses that is not visibly
+		// <its tunnel parameter>.vpnAddrs (e.g. the slice itself was passed): the loop may be there in a form that is not followed
+		looseLoop := func() bool {
+			bind := fix4BindParam(delFam, cg, fn, hi)
+			for _, g := range reach {
+				if g == fn || fVpn == nil {
+					continue
 				}
-				if av {
-					bad = true
-					c.Bad("C28.delete", "must-pass:"+m.name, c.instrPos(r), "a path through unlockedDeleteHostInfo returns without "+m.name+": a removed tunnel stays reachable", path...)
-					break
+				all := findRangeLoops(g, func(v ssa.Value) bool {
+					_, isParam := stripValue(v).(*ssa.Parameter)
+					return types.Identical(v.Type(), fVpn.Type()) && (isParam || loadsField(v, fVpn))
+				})
+				known := 0
+				if b := bind[g]; b != nil {
+					known = len(fix4VpnLoops(g, b, fVpn))
+				}
+				if len(all) > known {
+					return true
 				}
 			}
-			if !bad {
-				c.OK("C28.delete", "must-pass:"+m.name, "on every path")
+			return false
+		}
+		// each of these is passed by every return of unlockedDeleteHostInfo: directly, or inside a private helper that is handed
+		// the tunnel and itself passes it on every path
+		for _, m := range must {
+			mp := &fix4MustPass{c: c, fam: delFam, root: fn}
+			ok, r, path := mp.check(fn, hi, m, 0)
+			switch {
+			case ok:
+				c.OK("C28.delete", "must-pass:"+m.Name, "on every path")
+			case mp.Unfollowed || (m.Name == "per-address-loop" && looseLoop()):
+				c.Unknown("C28.delete", "must-pass:"+m.Name, "a private helper of unlockedDeleteHostInfo seems to hold this step but is not handed the tunnel as an argument (or loops over an address slice that is not visibly the tunnel's vpnAddrs): the step could not be mapped back")
+			case m.Name == "per-address-loop":
+				c.Bad("C28.delete", "must-pass:"+m.Name, c.P.Pos(fn.Pos()), "deletion can return without visiting each of the tunnel's addresses", path...)
+			default:
+				pos := c.P.Pos(fn.Pos())
+				if r != nil {
+					pos = c.instrPos(r)
+				}
+				c.Bad("C28.delete", "must-pass:"+m.Name, pos, "a path through unlockedDeleteHostInfo returns without "+m.Name+": a removed tunnel stays reachable", path...)
 			}
 		}
 		// relay cleanup loop deletes from Relays
-		c.Check(len(callSinks(fn, "", CallSpec{})) >= 0 && anyInstr(fn, isDelOf(fRel)), "C28.delete", "relay-index-delete", c.P.Pos(fn.Pos()), "delete(hm.Relays, idx) present", "owned relay indexes are no longer removed from hm.Relays")
-		// per-address loop over hostinfo.vpnAddrs is entered on every path
-		fVpn := c.Field("", "HostInfo", "vpnAddrs")
-		loops := findRangeLoops(fn, func(v ssa.Value) bool {
-			return loadsField(v, fVpn) && derivesFrom(v, sliceLocal, func(x ssa.Value) bool { return x == hi })
-		})
-		okLoop := len(loops) == 1
-		if okLoop {
-			for _, r := range rets {
-				if av, _ := c.avoidsCut(fn, nil, r, func(in ssa.Instruction) bool { return in.Block() == loops[0].Header }); av {
-					okLoop = false
+		hasRelDel := false
+		for _, g := range reach {
+			hasRelDel = hasRelDel || anyInstr(g, isDelOf(fRel))
+		}
+		c.Check(hasRelDel, "C28.delete", "relay-index-delete", c.P.Pos(fn.Pos()), "delete(hm.Relays, idx) present", "owned relay indexes are no longer removed from hm.Relays")
+		// owner-checked RemoteIndexes delete
+		ownerRI := func(h ssa.Value) Guard {
+			return gCmp("RemoteIndexes[id] == hostinfo", func(v ssa.Value) bool {
+				return derivesFrom(v, sliceLocal, func(x ssa.Value) bool { lk, ok := x.(*ssa.Lookup); return ok && loadsField(lk.X, fRI) })
+			}, func(v ssa.Value) bool { return v == h }, mustEqual)
+		}
+		bind := fix4BindParam(delFam, cg, fn, hi)
+		nRI := 0
+		for _, g := range reach {
+			var delRI []Sink
+			eachInstr(g, func(in ssa.Instruction) {
+				if isDelOf(fRI)(in) {
+					delRI = append(delRI, Sink{Instr: in, Desc: "delete(RemoteIndexes)"})
+				}
+			})
+			if len(delRI) == 0 {
+				continue
+			}
+			nRI += len(delRI)
+			if g == fn {
+				c.requireGuards("C28.delete", fn, delRI, "RemoteIndexes-delete", ownerRI(hi))
+				continue
+			}
+			h := bind[g]
+			if h == nil {
+				c.Unknown("C28.delete", fnName(g)+":RemoteIndexes-delete", "the delete sits in a private helper that is not handed the removed tunnel at every call: ownership test not followed")
+				continue
+			}
+			for i, s := range delRI {
+				ok, _, path := c.mustPass(g, s, ownerRI(h))
+				if !ok {
+					// the test may sit at the call sites instead
+					ok = true
+					for _, site := range cg.callers[g] {
+						ch := bind[site.Fn]
+						if ch == nil {
+							ok = false
+							break
+						}
+						if ok2, _, _ := c.mustPass(site.Fn, Sink{Instr: site.In}, ownerRI(ch)); !ok2 {
+							ok = false
+						}
+					}
+				}
+				if ok {
+					c.OK("C28.delete", fmt.Sprintf("%s:RemoteIndexes-delete#%d<-RemoteIndexes[id] == hostinfo", fnName(g), i), "every path passes the ownership test (in the helper or at each of its call sites)")
+				} else {
+					c.Bad("C28.delete", fmt.Sprintf("%s:RemoteIndexes-delete#%d<-RemoteIndexes[id] == hostinfo", fnName(g), i), c.instrPos(s.Instr), "RemoteIndexes-delete is reachable without passing the test \"RemoteIndexes[id] == hostinfo\"", path...)
 				}
 			}
 		}
-		c.Check(okLoop, "C28.delete", "must-pass:per-address-loop", c.P.Pos(fn.Pos()), "every return passes the loop over hostinfo.vpnAddrs", "deletion can return without visiting each of the tunnel's addresses")
-		// owner-checked RemoteIndexes delete
-		var delRI []Sink
-		eachInstr(fn, func(in ssa.Instruction) {
-			if isDelOf(fRI)(in) {
-				delRI = append(delRI, Sink{Instr: in, Desc: "delete(RemoteIndexes)"})
-			}
-		})
-		c.requireGuards("C28.delete", fn, delRI, "RemoteIndexes-delete", gCmp("RemoteIndexes[id] == hostinfo", func(v ssa.Value) bool {
-			return derivesFrom(v, sliceLocal, func(x ssa.Value) bool { lk, ok := x.(*ssa.Lookup); return ok && loadsField(lk.X, fRI) })
-		}, func(v ssa.Value) bool { return v == hi }, mustEqual))
+		if nRI == 0 {
+			c.requireGuards("C28.delete", fn, nil, "RemoteIndexes-delete", ownerRI(hi))
+		}
 	}
 	// ---- relay pairing
 	fRel := c.Field("", "HostMap", "Relays")
